@@ -285,7 +285,7 @@ def run(ctx):
     def check(case, res):
         m, accmode, hist, perm_seed = case
         return judge(m, accmode, hist, perm_seed, res)
-    res = hyp.run_property(ctx, cases(), check, ctx.pick(5000, 100000), known_keys=known, time_budget=ctx.pick(300, 3600))
+    res = hyp.run_property(ctx, cases(), check, ctx.pick(5000, 100000), known_keys=known, time_budget=ctx.pick(300, 900))
     return common.finish(ctx, res, "exploration", RULE,
                          ["images of linear constraints are identified by a unique tag coefficient, not through mp's link graph",
                           "the slack mapping (basis low/upp reversal, IIS low/upp swap when the slack is in the IIS) is the one documented in range_con.h",
